@@ -29,7 +29,8 @@ def parsePat (w : Wrapper) (s : String) : Option (List ArgPat) :=
   (toks.zip w.params).mapM fun (t, p) =>
     let isArr := p.role == .inHandleArray || p.role == .inStringArray
     if p.ptrDepth = 0 then
-      (if t = "v" || t = "m" then some ArgPat.valid else if t = "z" then some ArgPat.zero else none)
+      (if t = "v" || (t = "m" && p.role != .count) then some ArgPat.valid
+       else if t = "z" then some ArgPat.zero else none)
     else
       (if t = "v" then some ArgPat.valid else if t = "N" then some ArgPat.null
        else if t = "E" && isArr then some ArgPat.nullElem else none)
